@@ -367,4 +367,51 @@ SEGMENTS = {
         forbid=[],
         post="        Ok((rc_t, ref_b))",
     ),
+    # ---- the write-mapping drivers between write_at and the mapping functions
+    "MW": dict(
+        parts=[
+            dict(fn="make_multiple_write_mappings", start="FULL",
+                 sig="pub(crate) fn seg_mw_multi(&self, mut start: u64, end: u64) -> Qcow2Result<KVec<L2Entry>>",
+                 await_calls=["get_l2_entry", "__make_multiple_write_mapping"],
+                 rewrites=[(r"Vec::with_capacity\(\(\(end - start\) as usize\) >> info\.cluster_bits\(\)\)", "KVec::new()"),
+                           (r"\bSelf::need_make_mapping\(", "Qcow2Dev::<super::verif_write::KIo>::need_make_mapping("),
+                           (r"self\.k_get_l2_entry\(", "self.k_mw_get_l2_entry("),
+                           (r"self\.k___make_multiple_write_mapping\(", "self.k_mw_make_multiple(")]),
+            dict(fn="populate_single_write_mapping", start="FULL",
+                 sig="pub(crate) fn seg_mw_single(&self, virt_off: u64) -> Qcow2Result<L2Entry>",
+                 await_calls=["get_l2_entry", "make_single_write_mapping"],
+                 rewrites=[(r"\bSelf::need_make_mapping\(", "Qcow2Dev::<super::verif_write::KIo>::need_make_mapping("),
+                           (r"self\.k_get_l2_entry\(", "self.k_mw_get_l2_entry("),
+                           (r"self\.k_make_single_write_mapping\(", "self.k_mw_make_single(")]),
+            dict(fn="populate_write_mappings", start="FULL",
+                 sig="pub(crate) fn seg_mw_populate(&self, virt_off: u64, len: usize) -> Qcow2Result<KVec<L2Entry>>",
+                 await_calls=["make_multiple_write_mappings"],
+                 rewrites=[(r"self\.k_make_multiple_write_mappings\(", "self.seg_mw_multi(")]),
+        ],
+        file="src/dev/write.rs", parent="src/dev/write.rs",
+    ),
+    # ---- the read leaves: data file, zeros, backing image
+    "RL": dict(
+        parts=[
+            dict(fn="do_read_data_file", start="FULL",
+                 sig="pub(crate) fn seg_rl_data(&self, mapping: Mapping, off_in_cls: usize, buf: &mut [u8]) -> Qcow2Result<usize>",
+                 await_calls=["call_read"],
+                 rewrites=[(r"self\.k_call_read\(", "self.k_call_read_fill(")]),
+            dict(fn="do_read_zero", start="FULL",
+                 sig="pub(crate) fn seg_rl_zero(&self, buf: &mut [u8]) -> Qcow2Result<usize>"),
+            dict(fn="do_read_backing", start="FULL",
+                 sig="pub(crate) fn seg_rl_backing(&self, mapping: Mapping, off_in_cls: usize, buf: &mut [u8]) -> Qcow2Result<usize>",
+                 rewrites=[(r"backing\s*\.read_at_for_backing\(buf, off \+ off_in_cls as u64\)\s*\.await", "self.k_rl_backing_read(backing, buf, off + off_in_cls as u64)")]),
+        ],
+        file="src/dev/read.rs",
+    ),
+    # ---- the whole compressed read (inflate replaced by a recording stand-in)
+    "RC": dict(
+        file="src/dev/read.rs", fn="do_read_compressed", start="FULL",
+        sig="pub(crate) fn seg_rc(&self, mapping: Mapping, off_in_cls: usize, buf: &mut [u8]) -> Qcow2Result<usize>",
+        await_calls=["call_read"],
+        rewrites=[(r"self\.k_call_read\(", "self.k_rc_call_read("),
+                  (r"let mut dec_ox = DecompressorOxide::new\(\);", "let mut dec_ox = ();"),
+                  (r"inflate\(&mut dec_ox, compressed_data, dst, 0, 0\)", "self.k_rc_inflate(compressed_data, dst)")],
+    ),
 }
